@@ -8,6 +8,7 @@ bin=$(mktemp /tmp/extract.XXXX); (cd extract && go build -o "$bin" .) || exit 2
 save=$(mktemp -d /tmp/evsave.XXXX); cp evidence/*.json "$save"/
 for d in ${BENIGN_DIR:-seeded/benign}/C*/; do
   id=$(basename "$d")
+  grep -q '"obsolete"' "$d/meta.json" 2>/dev/null && { echo "$id: obsolete (skipped)"; continue; }
   git -C /repo diff --quiet || { echo "repo dirty"; exit 2; }
   git -C /repo apply "/verif/$d/patch.diff" 2>/dev/null || { echo "$id: DOES-NOT-APPLY"; continue; }
   rm -f lean/Vuego/Generated/*.lean
